@@ -574,6 +574,7 @@ def run(ctx):
     failures, classes, corr = run_cases(ctx, cases, cap)
     samples = [cases[i] for i in (0, len(cases) // 3, 2 * len(cases) // 3, len(cases) - 1)]
     corr['cap_entries'] = cap
+    corr['exhaustive'] = True
     return dict(evaluations=len(cases), distinct_nontrivial=len(classes), exhaustive=True,
                 rule='exhaustive enumeration (no sampling) of the bounded space described in the module docstring; all '
                      'operands have pairwise distinct non-zero integer entries, so every case is non-trivial; distinct = '
